@@ -134,14 +134,15 @@ func (t *Term) IsConst() bool { return t.Op == OpConst }
 
 type tkey struct {
 	op         Op
-	s          Sort
+	k          Kind
+	w, ew      int32
 	c          uint64
-	name       string
-	a0, a1, a2 int
+	a0, a1, a2 int32
 }
 
 type TermCtx struct {
 	tab    map[tkey]*Term
+	named  map[string]*Term
 	nterms int
 	True   *Term
 	False  *Term
@@ -149,7 +150,7 @@ type TermCtx struct {
 }
 
 func NewTermCtx() *TermCtx {
-	c := &TermCtx{tab: map[tkey]*Term{}}
+	c := &TermCtx{tab: map[tkey]*Term{}, named: map[string]*Term{}}
 	c.True = c.mk(OpConst, SBool, 1, "")
 	c.False = c.mk(OpConst, SBool, 0, "")
 	return c
@@ -163,26 +164,31 @@ func mask(w int) uint64 {
 }
 
 func (c *TermCtx) mk(op Op, s Sort, cv uint64, name string, args ...*Term) *Term {
-	k := tkey{op: op, s: s, c: cv, name: name, a0: -1, a1: -1, a2: -1}
-	if len(args) > 0 {
-		k.a0 = args[0].ID
-	}
-	if len(args) > 1 {
-		k.a1 = args[1].ID
-	}
-	if len(args) > 2 {
-		k.a2 = args[2].ID
-	}
-	if len(args) > 3 {
+	var nkey string
+	k := tkey{op: op, k: s.K, w: int32(s.W), ew: int32(s.EW), c: cv, a0: -1, a1: -1, a2: -1}
+	if name != "" || len(args) > 3 {
 		var sb strings.Builder
-		sb.WriteString(name)
-		for _, a := range args[3:] {
+		fmt.Fprintf(&sb, "%d|%d|%d|%d|%d|%s", op, s.K, s.W, s.EW, cv, name)
+		for _, a := range args {
 			fmt.Fprintf(&sb, ",%d", a.ID)
 		}
-		k.name = sb.String()
-	}
-	if t, ok := c.tab[k]; ok {
-		return t
+		nkey = sb.String()
+		if t, ok := c.named[nkey]; ok {
+			return t
+		}
+	} else {
+		if len(args) > 0 {
+			k.a0 = int32(args[0].ID)
+		}
+		if len(args) > 1 {
+			k.a1 = int32(args[1].ID)
+		}
+		if len(args) > 2 {
+			k.a2 = int32(args[2].ID)
+		}
+		if t, ok := c.tab[k]; ok {
+			return t
+		}
 	}
 	t := &Term{ID: c.nterms, Op: op, S: s, C: cv, Name: name}
 	if len(args) > 0 {
@@ -192,7 +198,11 @@ func (c *TermCtx) mk(op Op, s Sort, cv uint64, name string, args ...*Term) *Term
 	if s.K == KBV {
 		t.umax = c.computeUmax(t)
 	}
-	c.tab[k] = t
+	if nkey != "" {
+		c.named[nkey] = t
+	} else {
+		c.tab[k] = t
+	}
 	return t
 }
 
@@ -422,6 +432,10 @@ func foldBin(op Op, w int, a, b uint64) (uint64, bool) {
 	return 0, false
 }
 
+func constLeafIte(t *Term) bool {
+	return t.Op == OpIte && t.A[1].IsConst() && t.A[2].IsConst()
+}
+
 func (c *TermCtx) Bin(op Op, a, b *Term) *Term {
 	w := a.S.W
 	if a.S != b.S {
@@ -431,6 +445,13 @@ func (c *TermCtx) Bin(op Op, a, b *Term) *Term {
 		if v, ok := foldBin(op, w, a.C, b.C); ok {
 			return c.Const(w, v)
 		}
+	}
+	// distribute over ite with constant leaves (keeps small value sets explicit)
+	if b.IsConst() && constLeafIte(a) {
+		return c.Ite(a.A[0], c.Bin(op, a.A[1], b), c.Bin(op, a.A[2], b))
+	}
+	if a.IsConst() && constLeafIte(b) {
+		return c.Ite(b.A[0], c.Bin(op, a, b.A[1]), c.Bin(op, a, b.A[2]))
 	}
 	m := mask(w)
 	switch op {
@@ -617,8 +638,28 @@ func (c *TermCtx) Extract(a *Term, hi, lo int) *Term {
 			return c.Extract(a.A[0], hi-lw, lo-lw)
 		}
 	case OpAnd, OpOr, OpXor:
-		if lo == 0 {
-			return c.Bin(a.Op, c.Extract(a.A[0], hi, 0), c.Extract(a.A[1], hi, 0))
+		return c.Bin(a.Op, c.Extract(a.A[0], hi, lo), c.Extract(a.A[1], hi, lo))
+	case OpNot:
+		return c.Not(c.Extract(a.A[0], hi, lo))
+	case OpShl:
+		if a.A[1].IsConst() {
+			k := int(a.A[1].C)
+			if lo >= k {
+				return c.Extract(a.A[0], hi-k, lo-k)
+			}
+			if hi < k {
+				return c.Const(w, 0)
+			}
+		}
+	case OpLShr:
+		if a.A[1].IsConst() {
+			k := int(a.A[1].C)
+			if hi+k < a.S.W {
+				return c.Extract(a.A[0], hi+k, lo+k)
+			}
+			if lo+k >= a.S.W {
+				return c.Const(w, 0)
+			}
 		}
 	case OpAdd, OpSub, OpMul:
 		if lo == 0 {
@@ -726,6 +767,12 @@ func (c *TermCtx) Cmp(op Op, a, b *Term) *Term {
 			return c.False
 		}
 	}
+	if b.IsConst() && constLeafIte(a) {
+		return c.Ite(a.A[0], c.Cmp(op, a.A[1], b), c.Cmp(op, a.A[2], b))
+	}
+	if a.IsConst() && constLeafIte(b) {
+		return c.Ite(b.A[0], c.Cmp(op, a, b.A[1]), c.Cmp(op, a, b.A[2]))
+	}
 	if op == OpSlt || op == OpSle {
 		if a.signKnownZero() && b.signKnownZero() {
 			if op == OpSlt {
@@ -769,6 +816,42 @@ func (c *TermCtx) Cmp(op Op, a, b *Term) *Term {
 		}
 		if a.Op == OpZExt && b.Op == OpZExt && a.A[0].S == b.A[0].S {
 			return c.Cmp(OpEq, a.A[0], b.A[0])
+		}
+		// concat(h, l) == t  ->  h == t[hi] && l == t[lo]
+		if a.Op == OpConcat || b.Op == OpConcat {
+			if a.Op != OpConcat {
+				a, b = b, a
+			}
+			lw := a.A[1].S.W
+			return c.BAnd(c.Cmp(OpEq, a.A[0], c.Extract(b, w-1, lw)), c.Cmp(OpEq, a.A[1], c.Extract(b, lw-1, 0)))
+		}
+		// (x ^ d) == x  ->  d == 0 ;  (x ^ d) == (x ^ e) -> d == e
+		if a.Op == OpXor || b.Op == OpXor {
+			if b.Op != OpXor {
+				a, b = b, a
+			}
+			// now b is an xor
+			if a == b.A[0] {
+				return c.Cmp(OpEq, b.A[1], c.Const(w, 0))
+			}
+			if a == b.A[1] {
+				return c.Cmp(OpEq, b.A[0], c.Const(w, 0))
+			}
+			if a.Op == OpXor && b == a.A[0] {
+				return c.Cmp(OpEq, a.A[1], c.Const(w, 0))
+			}
+			if a.Op == OpXor && b == a.A[1] {
+				return c.Cmp(OpEq, a.A[0], c.Const(w, 0))
+			}
+			if a.Op == OpXor {
+				for i := 0; i < 2; i++ {
+					for j := 0; j < 2; j++ {
+						if a.A[i] == b.A[j] {
+							return c.Cmp(OpEq, a.A[1-i], b.A[1-j])
+						}
+					}
+				}
+			}
 		}
 		if a.ID > b.ID {
 			a, b = b, a
@@ -1341,4 +1424,78 @@ func collectVars(t *Term, seen map[int]bool, out *[]*Term) {
 	for _, a := range t.A {
 		collectVars(a, seen, out)
 	}
+}
+
+
+// possibleValues returns the set of values t can take when that set is small
+// and syntactically evident (ite trees over constants, narrow terms, and
+// arithmetic over such); nil when unknown or larger than max.
+func (c *TermCtx) possibleValues(t *Term, max int) []uint64 {
+	memo := map[int][]uint64{}
+	var rec func(t *Term, depth int) []uint64
+	add := func(set []uint64, v uint64) []uint64 {
+		for _, x := range set {
+			if x == v {
+				return set
+			}
+		}
+		return append(set, v)
+	}
+	rec = func(t *Term, depth int) []uint64 {
+		if t.S.K != KBV || depth > 24 {
+			return nil
+		}
+		if t.Op == OpConst {
+			return []uint64{t.C}
+		}
+		if r, ok := memo[t.ID]; ok {
+			return r
+		}
+		var res []uint64
+		switch t.Op {
+		case OpIte:
+			a, b := rec(t.A[1], depth+1), rec(t.A[2], depth+1)
+			if a != nil && b != nil {
+				res = append([]uint64(nil), a...)
+				for _, v := range b {
+					res = add(res, v)
+				}
+			}
+		case OpZExt:
+			res = rec(t.A[0], depth+1)
+		case OpAdd, OpSub, OpAnd, OpOr, OpXor, OpShl, OpLShr, OpMul:
+			a, b := rec(t.A[0], depth+1), rec(t.A[1], depth+1)
+			if a != nil && b != nil && len(a)*len(b) <= 4*max {
+				for _, x := range a {
+					for _, y := range b {
+						v, _ := foldBin(t.Op, t.S.W, x, y)
+						res = add(res, v)
+					}
+				}
+			}
+		case OpExtract:
+			if a := rec(t.A[0], depth+1); a != nil {
+				lo := uint(t.C & 0xff)
+				for _, x := range a {
+					res = add(res, (x>>lo)&mask(t.S.W))
+				}
+			}
+		}
+		if res == nil && t.S.W <= 2 {
+			for v := uint64(0); v <= mask(t.S.W); v++ {
+				res = append(res, v)
+			}
+		}
+		if res == nil && t.umax < uint64(max) && t.umax < 8 {
+			for v := uint64(0); v <= t.umax; v++ {
+				res = append(res, v)
+			}
+		}
+		if len(res) > max {
+			res = nil
+		}
+		memo[t.ID] = res
+		return res
+	}
+	return rec(t, 0)
 }
